@@ -96,6 +96,7 @@ type extOp struct {
 	AliasBuiltin bool // the first alias is "text/html", a name a built-in format already carries
 	ExtXML       bool // the file extension is ".xml", which a built-in format already uses
 	NoExt        bool // registered without a file extension ("", as several built-in formats are)
+	PrefixName bool // register under the attachment point's name + "-ext" (as text/xml-external-parsed-entity extends text/xml): a different type whose name merely starts with its parent's
 	Same    bool // register under the MIME string of the attachment point (new extension only, like .aaf under application/octet-stream's namesake)
 }
 
@@ -216,6 +217,9 @@ func (t *treeModel) apply(op extOp) {
 	}
 	if op.Same {
 		name = parentName
+	}
+	if op.PrefixName {
+		name = parentName + "-ext"
 	}
 	if target == nil {
 		mimetype.Extend(pred, name, ext, aliases...)
